@@ -494,6 +494,28 @@ pub fn c20_value(t: &mut Tctx, algos: &[CrcAlgo], shape: &Shape, val: &Val) {
                 }
             }
         }
+        // heapless storage whose capacity is EXACTLY the output length (menu of const capacities)
+        if HCAPS.contains(&want.len()) {
+            let mut bad: Option<String> = None;
+            macro_rules! cap {
+                ($b:expr) => {{
+                    const B: usize = $b;
+                    if B == want.len() {
+                        if let Ok(Some(r)) = catch(|| to_hvec_framed::<B>(f, algos, val)) {
+                            t.st.count("storage_heapless_exact_fit");
+                            if !matches!(&r, Ok(b) if *b == want) {
+                                bad = Some(format!("{} over HVec<{}> (exactly fitting) gave {:?}, expected {}", label, B, r.map(|b| hexs(&b)).map_err(|e| err_label(&e)), hexs(&want)));
+                            }
+                        }
+                    }
+                }};
+            }
+            crate::for_each_hcap!(cap);
+            if let Some(m) = bad {
+                t.st.violation("C20:heapless-stack-differs", m, rp20(shape, &plain, &label));
+                return;
+            }
+        }
         // undo the layers in reverse order
         let recovered: Result<Val, String> = (|| match f {
             Framing::Plain => with_shape(shape, || postcard::from_bytes::<DynVal>(&want)).map(|v| v.0).map_err(|e| err_label(&e).to_string()),
@@ -605,6 +627,10 @@ pub fn run_c20(cfg: &Cfg) -> Report {
         let m = read_replay(p).unwrap_or_default();
         let s = parallel(&Cfg { threads: 1, ..cfg.clone() }, 9, |t| {
             let algos = crc_algos();
+            if m.get("kind").map(|s| s.as_str()) == Some("impure") {
+                impure_values_lane(t, "C20");
+                return;
+            }
             let shape = match Shape::parse(m.get("shape").map(|s| s.as_str()).unwrap_or("")) {
                 Ok(s) => s,
                 Err(e) => {
@@ -632,6 +658,20 @@ pub fn run_c20(cfg: &Cfg) -> Report {
             let (shape, val) = if i % 5 == 0 {
                 let len = *t.rng.pick(&[0usize, 1, 2, 253, 254, 255, 300, 508]);
                 super::ser::value_of_len(&mut t.rng, len)
+            } else if i % 11 == 3 {
+                // a value whose last write is an empty block, of a length on the heapless capacity menu
+                let n = *t.rng.pick(&[1usize, 2, 3, 4, 5, 8, 9, 10, 12, 16, 24, 32]);
+                let mut fields: Vec<Shape> = (0..n - 1).map(|_| Shape::U8).collect();
+                let mut vals: Vec<Val> = (0..n - 1).map(|_| Val::U8(1 + (t.rng.next() % 255) as u8)).collect();
+                if t.rng.chance(1, 2) {
+                    fields.push(Shape::Str);
+                    vals.push(Val::Str(String::new()));
+                } else {
+                    fields.push(Shape::Bytes);
+                    vals.push(Val::Bytes(Vec::new()));
+                }
+                t.st.count("values_ending_in_empty_block");
+                (Shape::Tuple(fields), Val::Tuple(vals))
             } else {
                 let d = t.rng.range(0, 4) as u32;
                 let shape = gen_shape(&mut t.rng, d, &ShapeOpts::small());
@@ -658,8 +698,9 @@ pub fn run_c20(cfg: &Cfg) -> Report {
     let s = parallel(cfg, 2, |t| impure_values_lane(t, "C20"));
     rep.stats.merge(s);
     rep.floor("impure_value_cases", 20);
+    rep.floor("storage_heapless_exact_fit", 20);
     rep.rule = "cases = (value, flavour stack, innermost storage): random-shape values and values crafted around the COBS block length; stacks = plain, Cobs<S>, CrcModifier<S,W> \
-                (10 algorithms, 5 widths), CrcModifier<Cobs<S>,W>; S = Slice, AllocVec, HVec<1024> (subset of algorithms), recording user flavours (push-only and with a block-write \
+                (10 algorithms, 5 widths), CrcModifier<Cobs<S>,W>; S = Slice, AllocVec, HVec<1024> and exactly fitting HVec<B> for outputs whose length is on the 25-entry capacity menu (subset of algorithms), recording user flavours (push-only and with a block-write \
                 override) alone and as innermost storage. Expected output = composition of the reference COBS/CRC transforms on the reference plain encoding. distinct = (shape, plain)."
         .into();
     rep.assumptions = vec!["reference COBS and CRC as in C06/C10".into()];
